@@ -232,7 +232,8 @@ const LONG_HOLDS: [u32; 5] = [300, 32768, 65535, 70000, 140000];
 
 // ---------------------------------------------------------------- enumeration
 
-fn inputs() -> Vec<Vec<u8>> { vec![vec![b'a'], vec![b'a', b'b'], vec![b'a', b'a', b'c'], vec![]] }
+/// (bytes with and without bit 7, a repeated byte, x80)
+fn inputs() -> Vec<Vec<u8>> { vec![vec![b'a'], vec![b'a', 0xC3], vec![0xE9, 0xE9, 0x80], vec![]] }
 fn k_subsets(n: u64, k: usize, mut idx: u64) -> Option<Vec<u64>> {
     let mut v = vec![]; for _ in 0..k { v.push(idx % n); idx /= n; }
     if v.windows(2).any(|w| w[0] >= w[1]) { return None; }
